@@ -27,18 +27,20 @@ Definition export_eqb (a b : export) : bool :=
   bytes_eqb (x_name a) (x_name b) && status_eqb (x_status a) (x_status b) &&
   kvs_eqb (x_attrs a) (x_attrs b) && Nat.eqb (x_dropped a) (x_dropped b) &&
   list_eqb event_eqb (x_events a) (x_events b) && Nat.eqb (x_evdropped a) (x_evdropped b) &&
-  list_eqb link_eqb (x_links a) (x_links b) && Nat.eqb (x_lkdropped a) (x_lkdropped b).
+  list_eqb link_eqb (x_links a) (x_links b) && Nat.eqb (x_lkdropped a) (x_lkdropped b) &&
+  (x_kind a =? x_kind b) && (x_start a =? x_start b) && (x_end a =? x_end b).
 
 (** Short constructors for generated files. *)
 Definition L := Build_limits.
 Definition X := Build_export.
 Definition E := Build_event.
 Definition K := Build_link.
+Definition S := Build_start_opts.
 
 Inductive case :=
-(* a whole span: limits, initial name, calls; what the exporter received and
+(* a whole span: limits, Start options, initial name, calls; what the exporter received and
    what the ended span's own accessors return after all calls *)
-| CSpan (lim : limits) (name0 : bytes) (ops : list op) (exported readback : export)
+| CSpan (lim : limits) (so : start_opts) (name0 : bytes) (ops : list op) (exported readback : export)
 (* one string attribute value under a value-length limit *)
 | CTrunc (limit : Z) (s out : bytes).
 
@@ -46,9 +48,9 @@ Definition flag (b : bool) (code : N) : list N := if b then [] else [code].
 
 Definition check_case (c : case) : list N :=
   match c with
-  | CSpan lim name0 ops exported readback =>
-      let st := run_model lim name0 ops in
-      let sp := run_spec lim name0 ops in
+  | CSpan lim so name0 ops exported readback =>
+      let st := run_model lim so name0 ops in
+      let sp := run_spec lim so name0 ops in
       flag (export_eqb (snapshot st) exported && export_eqb (live st) readback) V_MISMATCH ++
       flag (export_eqb sp exported && export_eqb sp readback) V_SPECFAIL ++
       flag (export_eqb sp (live st)) V_MODELSPEC
